@@ -11,17 +11,18 @@ theorem isRunning_eq_isRun : W.isRunning = W.isRun := by
   funext x; cases x <;> rfl
 
 /-- **C03 "capacity not lost".** If a job is ready, fewer than `N` bodies are running, the context
-    is live, the front ready job is valid, and (fail-fast) nothing has failed so far, then the
+    of the front ready job is live, that job is valid, and (fail-fast) nothing has failed so far
+    nor is about to (`NothingFailed`), then the
     scheduler on its own — without any running body having to finish, without caller action, without
     the ticker — gets one more body running.  In ContinueOnError mode this holds after any number
-    of failed or Goexit-ed jobs (the worker slot is restored by respawn). -/
+    of failed, Goexit-ed or context-skipped jobs (the worker slot is restored by respawn). -/
 theorem work_conserving (c : Cfg) (hw : c.wiring = Wiring.std) (hwf : WfCfg c) (acts : List Act) (s : State)
     (hr : run c (init c) acts = some s)
     (hsel : s.loop.phase = .select) (hready : s.loop.ready ≠ [])
     (hfree : (s.ws.filter W.isRunning).length < c.N)
-    (hlive : s.cancelled = false)
+    (hlive : ∀ j, s.loop.ready.head? = some j → s.cancelledCtx (c.ctxOfJob j) = false)
     (hvalid : ∀ j, s.loop.ready.head? = some j → (Loop.job s.loop j).invalid = false)
-    (hnofail : c.coe = true ∨ ∀ j o, Ev.ended j o ∈ s.log → o = .ok) :
+    (hnofail : c.coe = true ∨ NothingFailed c s) :
     ∃ (more : List Act) (s' : State), (∀ a ∈ more, a.isInternal = true) ∧ run c s more = some s' ∧
       (s.ws.filter W.isRunning).length < (s'.ws.filter W.isRunning).length := by
   simp only [← List.countP_eq_length_filter, isRunning_eq_isRun] at hfree ⊢
@@ -38,7 +39,7 @@ example :
        .workerEnd 0 (.fail 7) false, .workerPost 0] = some s
       ∧ wfCfgB c = true
       ∧ s.loop.phase = .select ∧ s.loop.ready = [2] ∧ s.ws = [.idle, .running 1] ∧ s.donec = [(0, .fail 7)]
-      ∧ (s.ws.filter W.isRunning).length = 1 ∧ s.cancelled = false
+      ∧ (s.ws.filter W.isRunning).length = 1 ∧ s.cancelledCtx 0 = false
       ∧ (Loop.job s.loop 2).invalid = false
       ∧ ∃ s', run c s [.loopResult, .loopDispatch 0, .workerDecide 0] = some s'
           ∧ s'.ws = [.running 2, .running 1] ∧ (s'.ws.filter W.isRunning).length = 2 := by
@@ -52,7 +53,7 @@ example :
        .loopDispatch 0, .loopDispatch 1, .workerDecide 0, .workerDecide 1,
        .workerEnd 0 .ok false, .workerPost 0] = some s
       ∧ s.loop.phase = .select ∧ s.loop.ready = [2] ∧ s.ws = [.idle, .running 1] ∧ s.donec = [(0, .ok)]
-      ∧ s.cancelled = false ∧ (s.log.all fun e => match e with | .ended _ o => o == .ok | _ => true) = true
+      ∧ s.cancelledCtx 0 = false ∧ (s.log.all fun e => match e with | .ended _ o => o == .ok | _ => true) = true
       ∧ ∃ s', run c s [.loopResult, .loopDispatch 0, .workerDecide 0] = some s'
           ∧ s'.ws = [.running 2, .running 1] := by
   decide
@@ -73,6 +74,43 @@ example :
       ∧ step c s (.workerDecide 0) = none ∧ step c s (.workerPost 0) = none
       ∧ ∃ s1, step c s .loopResult = some s1 ∧ s1.loop.phase = .draining ∧ s1.loop.ready = [2]
           ∧ step c s1 (.loopDispatch 0) = none := by
+  decide
+
+/-- Non-vacuity with two contexts, ContinueOnError: `N = 2`, job 0 running, job 1 — enqueued with
+    context 1, which is cancelled — held by the second worker, job 2 (context 0, live) ready.  The
+    hypotheses hold (only the front ready job's context has to be live); the scheduler's own steps
+    skip job 1, consume its `ctxErr`, and start job 2 while job 0 keeps running. -/
+example :
+    let c : Cfg := { N := 2, coe := true, emit := false, deps := [[], [], []], ctxOf := [0, 1, 0] }
+    ∃ s, run c (init c)
+      [.callerSend, .loopEnq, .callerSend, .loopEnq, .callerSend, .loopEnq,
+       .loopDispatch 0, .workerDecide 0, .cancel 1, .loopDispatch 1] = some s
+      ∧ wfCfgB c = true
+      ∧ s.loop.phase = .select ∧ s.loop.ready = [2] ∧ s.ws = [.running 0, .holding 1]
+      ∧ s.cancelledCtx (c.ctxOfJob 2) = false ∧ s.cancelledCtx (c.ctxOfJob 1) = true
+      ∧ (Loop.job s.loop 2).invalid = false
+      ∧ ∃ s', run c s [.workerDecide 1, .workerPost 1, .loopResult, .loopDispatch 1, .workerDecide 1] = some s'
+          ∧ s'.ws = [.running 0, .running 2] ∧ s'.loop.err = [.ctxErr] := by
+  decide
+
+/-- The same state in fail-fast mode shows why `NothingFailed` asks for live contexts of the jobs
+    workers hold: the front ready job's context is live and no body has failed, but the only
+    enabled internal steps skip job 1 (`ctxErr`), post and consume that result — and the loop
+    leaves its `for`; job 2 is never started although a worker is idle. -/
+example :
+    let c : Cfg := { N := 2, coe := false, emit := false, deps := [[], [], []], ctxOf := [0, 1, 0] }
+    ∃ s, run c (init c)
+      [.callerSend, .loopEnq, .callerSend, .loopEnq, .callerSend, .loopEnq,
+       .loopDispatch 0, .workerDecide 0, .cancel 1, .loopDispatch 1] = some s
+      ∧ s.loop.phase = .select ∧ s.loop.ready = [2] ∧ s.ws = [.running 0, .holding 1]
+      ∧ s.cancelledCtx (c.ctxOfJob 2) = false
+      ∧ (s.log.all fun e => match e with | .ended _ _ => false | .skipped _ _ => false | _ => true) = true
+      ∧ step c s (.loopDispatch 0) = none ∧ step c s (.loopDispatch 1) = none ∧ step c s .loopEnq = none
+      ∧ step c s .loopEnqClosed = none ∧ step c s .loopResult = none ∧ step c s (.workerPost 1) = none
+      ∧ ∃ s1, run c s [.workerDecide 1, .workerPost 1] = some s1 ∧ s1.ws = [.running 0, .idle]
+          ∧ step c s1 (.loopDispatch 1) = none
+          ∧ ∃ s2, step c s1 .loopResult = some s2 ∧ s2.loop.phase = .draining ∧ s2.loop.ready = [2]
+              ∧ s2.loop.err = [.ctxErr] ∧ step c s2 (.loopDispatch 1) = none := by
   decide
 
 end Sched
